@@ -13,12 +13,12 @@ ADDENDA = {
     "C01": " Liveness as EVENTUALLY (release steps and handler returns strictly decrease a measure: everything accepted is answered). Also: units are the accepted messages in FIFO order (ghost log), a unit is delivered exactly once iff it is not silent, a reply body is the outcome of the unique handler invocation; no reachable state has crashed (C08), so no crash hypothesis remains. The monitor 'a response id is sent at most as often as it was fed' is a Coq function proved of every model run (c01_mon_reply_once_sound) and evaluated by the extracted runner on every log, racing ones included.",
     "C02": " Also: survival stated on reach/step with no crash disjunct; every emitted response is id-null -32700/-32600 or the reply to a received call. Monitors 'no token starts its handler more often than it was fed' and 'gates never outnumber starts' proved of every model run (c02_mon_start_once_sound, c02_mon_gate_after_start_sound) and evaluated on every log, racing ones included.",
     "C03": " Also in step and trace form (the notification's completion precedes every later handler entry), the liveness half at quiescence, arrival order = unit order; racing scenarios and scripted histories in the harness. The barrier monitor is a Coq function proved of every model run (c03_mon_barrier_sound) and evaluated on every log, racing ones included.",
-    "C04": " Nothing partial: a returned value is the first member delivered for that id while pending (ghost delivery log), order/partition irrelevance, wire ids and spec order of batches, single consumer per reply.",
-    "C05": " Nothing partial: liveness at quiescence and reachability of quiescence by release steps (measure), OnCancel exactly-once counting, OnStop once with the first cause, Close returns only after every callback handler, no goroutine left, failure outcomes. The client harness has a racing mode (monitors only).",
-    "C06": " Also: step-level work conservation (a released slot is handed to the head waiter in the same window), waits only when full in every reachable state.",
-    "C07": " Also: free iff no unfinished holder, a freed id is accepted again, delivering one unit leaves other units' reservations and contexts alone. The base context (ServerOptions.NewContext) is not in the model: that cause is covered by racing scenarios and monitors only.",
+    "C04": " Nothing partial: a returned value is the first member delivered for that id while pending (ghost delivery log), order/partition irrelevance, wire ids and spec order of batches, single consumer per reply. Monitors of the racing scenarios are Coq functions proved of every model run and evaluated by the extracted runner on every log, racing ones included: mon_ids_fresh (c04_mon_ids_fresh_sound).",
+    "C05": " Nothing partial: liveness at quiescence and reachability of quiescence by release steps (measure), OnCancel exactly-once counting, OnStop once with the first cause, Close returns only after every callback handler, no goroutine left, failure outcomes. The client harness has a racing mode (monitors only). Monitors of the racing scenarios are Coq functions proved of every model run and evaluated by the extracted runner on every log, racing ones included: mon_return_once, mon_onstop_once, mon_close_seals.",
+    "C06": " Also: step-level work conservation (a released slot is handed to the head waiter in the same window), waits only when full in every reachable state. Monitors of the racing scenarios are Coq functions proved of every model run and evaluated by the extracted runner on every log, racing ones included: mon_concurrency (c06_mon_concurrency_sound, every prefix).",
+    "C07": " Also: free iff no unfinished holder, a freed id is accepted again, delivering one unit leaves other units' reservations and contexts alone. The base context (ServerOptions.NewContext) is not in the model: that cause is covered by racing scenarios and monitors only. Monitors of the racing scenarios are Coq functions proved of every model run and evaluated by the extracted runner on every log, racing ones included: mon_duplicate (c07_mon_duplicate_sound; the unconditional form is refuted with a witness).",
     "C08": " Also: status flags as WaitStatus computes them, notifications handled after a stop, no callback watcher left, Start enabled after WaitStatus, release steps strictly decrease a measure (eventual quiescence/termination). Restart: a restarted server is the embedding of a fresh one for EVERY history, callback records included (c08_restart_simulation: step commutes with the embedding, runs correspond both ways up to the renaming of callback ids; environment hypotheses explicit and each shown necessary by a refutation witness). No _partial theorem remains.",
-    "C09": " Also: gate and late replies stated on step from reachable states, exactly one return per push call over whole traces. The check also runs the library's own Client as the callback peer (family cli:c09: handlers that fail with coded/uncoded errors, return unencodable values, panic) against the client model.",
+    "C09": " Also: gate and late replies stated on step from reachable states, exactly one return per push call over whole traces. The check also runs the library's own Client as the callback peer (family cli:c09: handlers that fail with coded/uncoded errors, return unencodable values, panic) against the client model. Monitors of the racing scenarios are Coq functions proved of every model run and evaluated by the extracted runner on every log, racing ones included: mon_push_ids (c09_push_ids_consecutive, c09_push_returns_le_calls).",
     "C10": " Byte level: what the server and client models pass to Send encodes to one JSON object or non-empty array of objects that parses back (module Bytes10). Also: every run of the server model mapped to lock/Send/Recv/Close events is well-locked and disciplined; client half (module Cli): Close once, every channel operation inside one critical section, none after stop, single reader. The check drives both sides (families c10 and cli:c10).",
     "C11": " Also: Direct under every interleaving of Send/Recv/Close, independence of the reader window, chunked-reader models for the split and header framings (recv over any chunking = recv over the concatenation), RawJSON literals.",
     "C12": " Also: explicit Content-Length rejection, remaining stream is a suffix for every outcome, RawJSON error stickiness and truncation kind, per-call (every n) no-crash theorems, RawJSON records are valid per the independent JSON grammar.",
@@ -29,7 +29,7 @@ ADDENDA = {
     "C17": " Also: serverInfo method list, Names duplicate-free, the gate of the dispatch model linked to SrvModel.assign_method on every reachable state, context record (assigner and handler see the dispatched request; only the handler sees the server).",
     "C18": " Also: handler log exactly once per valid member for the table inner, status 204 iff no call and no invalid member, n-party isolation for any allocation schedule.",
     "C19": " Nothing partial: same results for the client model over jhttp.Channel+Bridge and over a direct connection (direct_answer), Getter bodies always valid JSON at byte level.",
-    "C20": " Also: per-connection life order, finish log, NetAccepter modelled and composed (context end -> Loop returns nil), internal steps terminate; NetAccepter itself is probed by scripted probes.",
+    "C20": " Also: per-connection life order, finish log, NetAccepter modelled and composed (context end -> Loop returns nil), internal steps terminate; NetAccepter itself is probed by scripted probes. Monitors of the racing scenarios are Coq functions proved of every model run and evaluated by the extracted runner on every log, racing ones included: mon_finish_once, mon_return_last, mon_fresh_service, mon_assigner_call, mon_return_served.",
 }
 
 # id -> (design_ref, level text, level note)
